@@ -35,7 +35,8 @@ Deliberately NOT demanded (statement silent; see also the final report):
   * value-before-index precedence when an index string is itself a choice;
   * defaults that do not denote a displayed index (the prompt cannot even be rendered): not enumerated;
   * re-asking at end of input while a finite attempt budget lasts (each such re-ask must still print one
-    error line and stay inside the read budget).
+    error line and stay inside the read budget);
+  * whether a non-interactive choice question returns the configured default string or the choice it denotes.
 """
 import itertools
 import re
@@ -620,6 +621,11 @@ def nonint_case(spec):
     if obs["err"] != "" or obs["out"] != "":
         return report.viol("nonint:wrote:" + spec["q"], "non-interactive %s question wrote %r" % (spec["q"], obs["err"] + obs["out"]), spec, "", shown)
     d = spec["default"]
+    if spec["q"] == "choice" and d is not None:
+        # "its default": the configured default, or (statement silent) the choice(s) that default denotes
+        denoted = [spec["choices"][int(x)] for x in d.split(",")]
+        if obs["detail"] == (denoted if spec["multi"] else denoted[0]):
+            return None
     if obs["detail"] != d or type(obs["detail"]) is not type(d):
         return report.viol("nonint:value:" + spec["q"], "non-interactive %s question returned %r, default is %r" % (
             spec["q"], obs["detail"], d), spec, d, shown)
@@ -675,6 +681,7 @@ def main():
         vs = []
         samples = []
         for cfg in share:
+            _PROMPTS.clear()  # one probe per configuration: counts do not depend on how work is dealt to processes
             r = explore_tree(cfg, alphabet, depth)
             for k_ in ("nodes", "edges", "runs", "nontrivial", "with_rejected", "cut", "leaves", "eof_nodes"):
                 tot[k_] += r[k_]
